@@ -37,6 +37,8 @@ type scheduler struct {
 	mus        map[*value]*smutex
 	wgs        map[*value]*swg
 	onces      map[*value]*sonce
+	smaps      map[*value]*omap   // sync.Map contents
+	pools      map[*value][]value // sync.Pool contents (LIFO, as seen by one P)
 	running    int // visitor-style counters available to harnesses
 }
 
@@ -67,7 +69,7 @@ type schan struct {
 
 func newScheduler(i *interpreter) *scheduler {
 	s := &scheduler{i: i, maxPreempt: 2, maxPoints: 100000,
-		mus: map[*value]*smutex{}, wgs: map[*value]*swg{}, onces: map[*value]*sonce{}}
+		mus: map[*value]*smutex{}, wgs: map[*value]*swg{}, onces: map[*value]*sonce{}, smaps: map[*value]*omap{}, pools: map[*value][]value{}}
 	main := &gthread{id: 0, wake: make(chan bool, 1), name: "main"}
 	s.threads = []*gthread{main}
 	s.cur = main
@@ -487,6 +489,101 @@ func init() {
 		if w.n > 0 {
 			s.yield(func() bool { return w.n == 0 })
 		}
+		return nil
+	})
+	// sync.Map: contents kept per path in the scheduler; every operation is a scheduling point
+	smap := func(fr *frame, p value) *omap {
+		s := fr.i.sched()
+		k := p.(*value)
+		m := s.smaps[k]
+		if m == nil {
+			m = makeMap(anyType, 0).(*omap)
+			s.smaps[k] = m
+		}
+		s.yield(nil)
+		return m
+	}
+	ext("(*sync.Map).Load", func(fr *frame, a []value) value {
+		if v, ok := smap(fr, a[0]).lookup(fr.i, a[1]); ok {
+			return tuple{v, true}
+		}
+		return tuple{iface{}, false}
+	})
+	ext("(*sync.Map).Store", func(fr *frame, a []value) value {
+		smap(fr, a[0]).insert(fr.i, a[1], a[2])
+		return nil
+	})
+	ext("(*sync.Map).LoadOrStore", func(fr *frame, a []value) value {
+		m := smap(fr, a[0])
+		if v, ok := m.lookup(fr.i, a[1]); ok {
+			return tuple{v, true}
+		}
+		m.insert(fr.i, a[1], a[2])
+		return tuple{a[2], false}
+	})
+	ext("(*sync.Map).LoadAndDelete", func(fr *frame, a []value) value {
+		m := smap(fr, a[0])
+		if v, ok := m.lookup(fr.i, a[1]); ok {
+			m.delete(fr.i, a[1])
+			return tuple{v, true}
+		}
+		return tuple{iface{}, false}
+	})
+	ext("(*sync.Map).Delete", func(fr *frame, a []value) value {
+		smap(fr, a[0]).delete(fr.i, a[1])
+		return nil
+	})
+	ext("(*sync.Map).Swap", func(fr *frame, a []value) value {
+		m := smap(fr, a[0])
+		old, ok := m.lookup(fr.i, a[1])
+		m.insert(fr.i, a[1], a[2])
+		if !ok {
+			return tuple{iface{}, false}
+		}
+		return tuple{old, true}
+	})
+	ext("(*sync.Map).Clear", func(fr *frame, a []value) value {
+		s := fr.i.sched()
+		delete(s.smaps, a[0].(*value))
+		return nil
+	})
+	ext("(*sync.Map).Range", func(fr *frame, a []value) value {
+		m := smap(fr, a[0])
+		for _, e := range m.live() {
+			r := call(fr.i, fr, token.NoPos, a[1], []value{e.key, e.val})
+			if b, ok := r.(bool); ok && !b {
+				break
+			}
+		}
+		return nil
+	})
+	// sync.Pool: what one P sees - Put pushes, Get pops the last item, New is called when empty
+	ext("(*sync.Pool).Get", func(fr *frame, a []value) value {
+		s := fr.i.sched()
+		k := a[0].(*value)
+		s.yield(nil)
+		if l := s.pools[k]; len(l) > 0 {
+			v := l[len(l)-1]
+			s.pools[k] = l[:len(l)-1]
+			return v
+		}
+		st := (*k).(structure)
+		newFn := st[len(st)-1]
+		if newFn == nil {
+			return iface{}
+		}
+		if c, ok := newFn.(*closure); ok && c == nil {
+			return iface{}
+		}
+		return call(fr.i, fr, token.NoPos, newFn, nil)
+	})
+	ext("(*sync.Pool).Put", func(fr *frame, a []value) value {
+		s := fr.i.sched()
+		k := a[0].(*value)
+		if x, ok := a[1].(iface); ok && x.t == nil {
+			return nil
+		}
+		s.pools[k] = append(s.pools[k], a[1])
 		return nil
 	})
 	ext("(*sync.Once).Do", func(fr *frame, a []value) value {
